@@ -536,6 +536,83 @@ def s_bech32_unicode():
                      st.lists(edit, min_size=1, max_size=4))
 
 
+# ------------------------------------------------------------------ call histories
+
+
+def _ref_bech32_raw(s, max_length=90):
+    """(hrp, data5 without checksum, "b32" | "b32m") or None: BIP173 / BIP350 string validation with a length limit"""
+    if any(ord(c) < 33 or ord(c) > 126 for c in s) or (s.lower() != s and s.upper() != s):
+        return None
+    s = s.lower()
+    pos = s.rfind("1")
+    if pos < 1 or pos + 7 > len(s) or len(s) > max_length:
+        return None
+    if any(c not in refenc.CHARSET for c in s[pos + 1:]):
+        return None
+    data = [refenc.CHARSET.find(c) for c in s[pos + 1:]]
+    const = refenc.polymod(refenc.hrp_expand(s[:pos]) + data)
+    if const not in (refenc.BECH32_CONST, refenc.BECH32M_CONST):
+        return None
+    return s[:pos], data[:-6], "b32" if const == refenc.BECH32_CONST else "b32m"
+
+
+def _hist_text(t):
+    hrp = t["hrp"] * t.get("hrp_rep", 1)
+    if t["const"] == "none":
+        s = hrp + "1" + "".join(refenc.CHARSET[d] for d in t["data5"])
+    else:
+        s = refenc.bech32_encode_raw(hrp, t["data5"], {"b32": 1, "b32m": refenc.BECH32M_CONST, "other": 0x3fffffff}[t["const"]])
+    return hrp, (s.upper() if t["upper"] else s)
+
+
+def o_bech32_history(case):
+    """every call answers as if it were the first one in the process: decoding with the optional max_length argument,
+    the default decoder, the segwit decoder and the encoder, interleaved on a small pool of texts"""
+    texts = [_hist_text(t) for t in case["texts"]]
+    labels = set()
+    for step, (op, k, arg) in enumerate(case["ops"]):
+        hrp, s = texts[k % len(texts)]
+        where = "step %d of %s" % (step, [[o, kk % len(texts), a] for o, kk, a in case["ops"][:step + 1]])
+        if op in ("raw", "raw_max"):
+            ml = 90 if op == "raw" else [len(s), len(s) - 1, 200, 1000, 90, 20][arg % 6]
+            got = bech32m.bech32_decode(s) if op == "raw" else bech32m.bech32_decode(s, max_length=ml) if arg % 2 else bech32m.bech32_decode(s, ml)
+            ref = _ref_bech32_raw(s, ml)
+            g = None if got[0] is None else (got[0], list(got[1]), {bech32m.Encoding.BECH32: "b32", bech32m.Encoding.BECH32M: "b32m"}.get(got[2]))
+            if g != ref:
+                _bad("bech32:history:raw-decode!=ref", "bech32_decode(%r, max_length=%d) = %r, reference %r (%s)" % (s, ml, got, ref, where))
+            if ref and len(s) > 90:
+                labels.add("over-long-text-decoded-with-raised-limit")
+        elif op == "seg":
+            ref = refenc.segwit_decode(hrp.lower(), s)
+            got = _pyc_decode(hrp.lower(), s)
+            if got != ref:
+                _bad("bech32:history:decode!=ref", "decode(%r, %r) = %r, reference %r (%s)" % (hrp.lower(), s, got, ref, where))
+            labels.add("seg-accept" if ref else "seg-reject-long" if len(s) > 90 else "seg-reject")
+        else:
+            d5 = case["texts"][k % len(texts)]["data5"]
+            prog = refenc.from5(d5[1:]) if d5 else None
+            if prog is None:
+                continue
+            ref = refenc.segwit_encode(hrp, d5[0], prog)
+            got = bech32m.encode(hrp, d5[0], prog)
+            if got != ref:
+                _bad("bech32:history:encode!=ref", "encode(%r, %d, %s) = %r, reference %r (%s)" % (hrp, d5[0], prog.hex(), got, ref, where))
+            labels.add("enc-ok" if ref else "enc-none")
+    return sorted(labels)
+
+
+def s_bech32_history():
+    def program(ver, n, fill):
+        return [ver] + refenc.to5(bytes([fill]) * n)
+    d5 = st.one_of(st.builds(program, st.sampled_from([0, 1, 1, 2, 16, 17]), st.sampled_from([20, 32, 40, 2, 33, 41, 1]), st.sampled_from([0, 0x11, 0xff])),
+                   st.lists(st.integers(0, 31), max_size=30))
+    text = st.fixed_dictionaries({"hrp": st.sampled_from(["bc", "tb", "a", "ltc", "abcdefghijklmnopqrstuvwxyz234"]),
+                                  "hrp_rep": st.sampled_from([1, 1, 1, 2, 10, 29]), "data5": d5,
+                                  "const": st.sampled_from(["b32", "b32m", "b32m", "other", "none"]), "upper": st.sampled_from([False, False, True])})
+    op = st.tuples(st.sampled_from(["raw", "raw_max", "raw_max", "seg", "seg", "enc"]), st.integers(0, 3), st.integers(0, 5)).map(list)
+    return st.fixed_dictionaries({"texts": st.lists(text, min_size=1, max_size=3), "ops": st.lists(op, min_size=2, max_size=10)})
+
+
 SUBCHECKS = [
     SubCheck("bech32_unicode", o_bech32_unicode, strategy=s_bech32_unicode, budget=(4000, 400000),
              nontrivial=lambda c, l: not any(x.startswith("skip") for x in l),
@@ -580,6 +657,12 @@ SUBCHECKS = [
     SubCheck("bech32_invalid_classes_python_O", subproc.optimized_variant("checks.c11_codecs", "o_bech32_invalid"), strategy=s_bech32_invalid, budget=(400, 20000),
              rule="the bech32_invalid_classes cases evaluated in a child interpreter started with PYTHONOPTIMIZE=1 (python -O: assert statements are "
                   "compiled away, so validation written as an assert vanishes; the child asserts that mode)"),
+    SubCheck("bech32_call_history", o_bech32_history, strategy=s_bech32_history, budget=(3000, 200000),
+             nontrivial=lambda c, l: "over-long-text-decoded-with-raised-limit" in l or "seg-accept" in l,
+             rule="2-10 calls on a pool of 1-3 texts (segwit-shaped or arbitrary symbols; hrp up to 83 characters so that checksum-correct "
+                  "texts longer than 90 characters occur; either constant, a foreign one, none; upper case): bech32_decode with and without "
+                  "the optional max_length argument (len, len-1, 200, 1000, 90, 20; positional / keyword), decode(hrp, text), "
+                  "encode(hrp, version, program) - every call equals the reference for its own arguments, whatever was called before"),
     SubCheck("bech32_arbitrary", o_bech32_arbitrary, strategy=s_bech32_arbitrary, budget=(3000, 300000),
              rule="arbitrary 5-bit symbol strings under a known hrp, checksummed with the Bech32 / Bech32m / a foreign constant or not at all: accept <=> reference decoder accepts, and same (version, program)"),
 ]
